@@ -22,6 +22,7 @@ import (
 	"strings"
 	"sync"
 	"sync/atomic"
+	"syscall"
 	"time"
 )
 
@@ -207,6 +208,7 @@ func Main() {
 		var m0, m1 runtime.MemStats
 		runtime.ReadMemStats(&m0)
 		t0 := time.Now()
+		c0 := cpuMillis()
 		deadline.Store(t0.Add(caseTimeout).UnixNano())
 		resetBufs()
 		impl := runCase(h, args)
@@ -250,6 +252,7 @@ func Main() {
 		}
 		deadline.Store(0)
 		el := time.Since(t0)
+		cpuMs := cpuMillis() - c0 // CPU time of this process (all threads): what the code costs, not what the machine's load adds
 		runtime.ReadMemStats(&m1)
 		if ms := float64(el.Microseconds()) / 1000; ms > st.MaxMillis {
 			st.MaxMillis = ms
@@ -274,14 +277,15 @@ func Main() {
 			// the envelope is about one call; the concurrent phase multiplies time and allocation
 		} else if env.A > 0 && alloc > env.A*float64(inBytes)+env.B {
 			impl = fmt.Sprintf("RESOURCE:alloc=%.0f-for-%d-input-bytes:", alloc, inBytes) + impl
-		} else if ms := float64(el.Microseconds()) / 1000; env.MaxMs > 0 && ms > env.MaxMs {
+		} else if ms := cpuMs; env.MaxMs > 0 && ms > env.MaxMs {
 			// wall time on a shared machine: run the case once more before calling it slow (the better of two runs counts)
 			t1 := time.Now()
+			c1 := cpuMillis()
 			deadline.Store(t1.Add(caseTimeout).UnixNano())
 			resetBufs()
 			again := runCase(h, args)
 			deadline.Store(0)
-			ms2 := float64(time.Since(t1).Microseconds()) / 1000
+			ms2 := cpuMillis() - c1
 			if ms2 > env.MaxMs && again == impl {
 				impl = fmt.Sprintf("RESOURCE:ms=%.0f/%.0f-for-%d-input-bytes:", ms, ms2, inBytes) + impl
 			}
@@ -350,6 +354,15 @@ func Main() {
 		st.DistinctNT = len(st.distinct)
 		enc.Encode(st)
 	}
+}
+
+// cpuMillis is the CPU time (user + system, all threads) this process has used so far
+func cpuMillis() float64 {
+	var ru syscall.Rusage
+	if err := syscall.Getrusage(syscall.RUSAGE_SELF, &ru); err != nil {
+		return 0
+	}
+	return float64(ru.Utime.Sec+ru.Stime.Sec)*1000 + float64(ru.Utime.Usec+ru.Stime.Usec)/1000
 }
 
 func clip(s string) string {
